@@ -44,21 +44,21 @@ def run(ctx, pid):
     samples = []
     others = collections.Counter()
 
-    # ---- design level
+    # ---- design level (the exhaustive runs also dump their state graphs for the edge cover)
     futs = {
-        "base": pool.submit(ctx.tlc_must_hold, SPEC, "MC_ActorTurn.cfg" if quick else "MC_ActorTurn_t.cfg", module="MC_ActorTurn",
-                            timeout=3000, workers=4 if quick else 8),
-        "restart": pool.submit(ctx.tlc_must_hold, SPEC, "MC_ActorTurn_restart_q.cfg" if quick else "MC_ActorTurn_restart.cfg",
-                               module="MC_ActorTurn", timeout=3000, workers=4 if quick else 8),
+        "base": pool.submit(ctx.tlc_must_hold, SPEC, "MC_ActorTurn.cfg", module="MC_ActorTurn", timeout=3000, workers=4, dump_dot=True),
+        "restart": pool.submit(ctx.tlc_must_hold, SPEC, "MC_ActorTurn_restart_q.cfg", module="MC_ActorTurn", timeout=3000, workers=4,
+                               dump_dot=True),
         "asis": pool.submit(ctx.tlc, SPEC, "MC_ActorTurn_restart_asis.cfg", module="MC_ActorTurn", timeout=900, expect_fail=True),
     }
     if pid == "C02" or not quick:
         futs["live"] = pool.submit(ctx.tlc_must_hold, SPEC, "MC_ActorTurn_live.cfg", module="MC_ActorTurn", timeout=3000, workers=4)
+    if not quick:
+        futs["base_t"] = pool.submit(ctx.tlc_must_hold, SPEC, "MC_ActorTurn_t.cfg", module="MC_ActorTurn", timeout=3000, workers=8)
+        futs["restart_t"] = pool.submit(ctx.tlc_must_hold, SPEC, "MC_ActorTurn_restart.cfg", module="MC_ActorTurn", timeout=3000, workers=8)
     dumps = {
-        "base": (pool.submit(ctx.tlc, SPEC, "Dump_ActorTurn.cfg", module="MC_ActorTurn", timeout=1800, dump_dot=True),
-                 {"p1": 2, "p2": 1}, 0, 1200 if quick else 12000),
-        "restart": (pool.submit(ctx.tlc, SPEC, "Dump_ActorTurn_restart.cfg", module="MC_ActorTurn", timeout=1800, dump_dot=True),
-                    {"p1": 2}, 1, 500 if quick else 6000),
+        "base": (futs["base"], {"p1": 2, "p2": 1}, 0, 1200 if quick else 12000),
+        "restart": (futs["restart"], {"p1": 2}, 1, 500 if quick else 6000),
         # regression witnesses: walks of the model of the code BEFORE the restart fix (they drift harmlessly on the fixed code)
         "asis": (pool.submit(ctx.tlc, SPEC, "Dump_ActorTurn_restart_asis_q.cfg", module="MC_ActorTurn", timeout=1800, dump_dot=True),
                  {"p1": 1}, 1, 300 if quick else 2000),
